@@ -181,6 +181,18 @@ def replay(ctx: Ctx, recs: List[Dict[str, Any]]) -> None:
                         i = int(bad.nonzero()[0])
                         ctx.violation(f"payoff:{kind}:stale-after-contract-change", f"{classes[kind].__name__}.payoff() does not follow the contract terms set on the object (strike/call/start changed since the previous call)",
                                       {"path": rs[i]["path"], "strike": r0["strike"], "call": call, "start": start, "expected": exp_fn[i].item(), "observed": po2[i].item()})
+                    # ... and with its UNDERLIER replaced by another instrument (derivative.underlier = other; the object had
+                    # been used with the old one): the contract is written on the prices of the instrument it holds now
+                    other = BrownianStock(dt=DT, dtype=dtype)
+                    other.register_buffer("spot", keep.flip(0).clone())
+                    d3 = classes[kind](st2, **kw)
+                    d3.payoff()
+                    d3.underlier = other
+                    po3 = d3.payoff()
+                    ctx.count(n=len(rs))
+                    if d3.ul() is not other or not bool(((po3.double() - exp_fn.flip(0)).abs() <= tol * (1 + exp_fn.abs())).all()):
+                        ctx.violation(f"payoff:{kind}:stale-after-underlier-change", f"{classes[kind].__name__}.payoff() after the underlier was replaced (derivative.underlier = other) is not the contract on the new instrument's prices",
+                                      {"strike": r0["strike"], "call": call, "ul_is_new": d3.ul() is other})
 
 
 def ties_at_non_dyadic_strike(ctx: Ctx) -> None:
